@@ -27,7 +27,18 @@ const (
 	exitUnwell    = 2
 )
 
-var verifDir = "/verif"
+var verifDir = "/verif" // where evidence, replays and known_findings.json live (VERIF_DIR overrides)
+
+// srcDir is where the simulation sources live: next to the runner binary (<srcDir>/bin/check).
+var srcDir = func() string {
+	if exe, err := os.Executable(); err == nil {
+		d := filepath.Dir(filepath.Dir(exe))
+		if _, err := os.Stat(filepath.Join(d, "sim", "go.mod")); err == nil {
+			return d
+		}
+	}
+	return "/verif"
+}()
 
 type propSpec struct {
 	Engine     string   // world | sched
@@ -72,9 +83,21 @@ func build(engine, tmp string) (string, error) {
 		}
 		args = append(args, "-overlay", overlay)
 	}
+	if alt := os.Getenv("VERIF_REPO"); alt != "" {
+		// sensitivity evaluation only: build against a patched copy of the repository instead of /repo
+		mod, err := os.ReadFile(filepath.Join(srcDir, "sim", "go.mod"))
+		if err != nil {
+			return "", err
+		}
+		sum, _ := os.ReadFile(filepath.Join(srcDir, "sim", "go.sum"))
+		alt, _ = filepath.Abs(alt)
+		os.WriteFile(filepath.Join(tmp, "alt.mod"), []byte(strings.Replace(string(mod), "=> /repo", "=> "+alt, 1)), 0o644)
+		os.WriteFile(filepath.Join(tmp, "alt.sum"), sum, 0o644)
+		args = append(args, "-modfile="+filepath.Join(tmp, "alt.mod"))
+	}
 	args = append(args, pkg)
 	cmd := exec.Command("go1.26.8", args...)
-	cmd.Dir = filepath.Join(verifDir, "sim")
+	cmd.Dir = filepath.Join(srcDir, "sim")
 	cmd.Env = goEnv()
 	b, err := cmd.CombinedOutput()
 	if err != nil {
@@ -208,7 +231,9 @@ func runWorkers(bin, property string, master uint64, workers, maxRuns int, deadl
 func runWorkerProc(bin string, spec map[string]interface{}, prog string, hard time.Time, extraEnv ...string) error {
 	js, _ := json.Marshal(spec)
 	cmd := exec.Command(bin, "-test.run", "^TestWorker$", "-test.count=1", "-test.timeout=0")
-	cmd.Env = append(append(os.Environ(), "VERIF_WORKER="+string(js)), extraEnv...)
+	// one run at a time per process: two OS threads are plenty, and a lazier collector pays off
+	// (every sealed value allocates a fresh gzip writer inside sso)
+	cmd.Env = append(append(os.Environ(), "VERIF_WORKER="+string(js), "GOGC=400", "GOMAXPROCS=2"), extraEnv...)
 	cmd.Dir = filepath.Dir(bin)
 	var outBuf strings.Builder
 	cmd.Stdout, cmd.Stderr = &outBuf, &outBuf
